@@ -59,6 +59,44 @@ def run(ctx):
             else:
                 r.fail(rule, key, 'a pending request is removed from message_states without its callback being completed', loc=c.loc)
     r.floor(rule, 'removal_sites', nrem, 5)
+    # ---------------- the status a request is completed with
+    rule = 'completion-status'
+    cb = [x for x in db.find_bodies(CORE + r'close::\{closure#0\}$')]
+    if not cb:
+        r.lost(rule, 'close', 'TransportState::close coroutine not found')
+    else:
+        b = cb[0]; F = ctx.facts(b)
+        sends = [c for c in b.calls() if c.callee.endswith('oneshot::Sender::send')]
+        if len(sends) < 2:
+            r.lost(rule, 'close:sends', 'expected the pending and the queued completion in close, found %d' % len(sends))
+        for i, c in enumerate(sends):
+            v = F.sym_operand(c.args[1])
+            txt = fmt_sym(b, v)
+            # Err(<local>) where the local is the "BadConnectionClosed if status is good" value
+            inner = v[4][0] if v[0] == 'agg' and v[3] == 'Err' and v[4] else None
+            defs = []
+            if inner is not None and inner[0] == 'place':
+                root = inner[1]
+                # coroutine-saved copies: follow the name
+                nm = b.local_name(root).split('(')[0]
+                for l in set(b.local_by_name(nm)) | {root}:
+                    for d in b.defs().get(l, []):
+                        if d[0] == 'stmt':
+                            defs.append(fmt_sym(b, F.sym_rvalue(d[3], 0)))
+            ok = 'request_status' in txt or any('BadConnectionClosed' in d for d in defs)
+            if ok and not re.search(r'Err\{status\(', txt):
+                r.ok(rule, 'close:send#%d' % i, 'completed with the connection-closed status (never with a Good status)', detail=txt[:100], loc=c.loc)
+            else:
+                r.fail(rule, 'close:send#%d' % i, 'a request is completed on close with the raw close status, which is Good on a graceful close', detail=txt[:120], loc=c.loc)
+    tb = db.find_bodies(CORE + r'next_timeout$')
+    if tb:
+        b = tb[0]; F = ctx.facts(b)
+        for c in [c for c in b.calls() if c.callee.endswith('oneshot::Sender::send')]:
+            txt = fmt_sym(b, F.sym_operand(c.args[1]))
+            if 'BadTimeout' in txt:
+                r.ok(rule, 'next_timeout:send', 'an expired request is completed with BadTimeout', loc=c.loc)
+            else:
+                r.fail(rule, 'next_timeout:send', 'an expired request is not completed with BadTimeout', detail=txt[:100], loc=c.loc)
     # ---------------- insertion
     rule = 'registered-with-sender'
     nins = 0
